@@ -68,6 +68,13 @@ pub fn drive(tr: &mut Tracer, rng: &mut StdRng, thorough: bool) {
         let f = forms[i % 4];
         tr.emit(json!({"op": "de_json", "form": f, "doc": text_to_json(&doc)}));
     }
+    // composite documents where a decimal is expected, and numbers whose exponent exceeds every integer type: errors, never a value or None
+    for doc in ["{\"amount\": 12.5}", "{\"a\":{\"b\":3}}", "{\"x\":\"1.5\"}", "{\"a\":1,\"b\":2}", "{\"a\":null}", "[12.5]", "[[1]]", "[\"1\"]", "{\"a\":[1]}",
+                "1e9223372036854775809", "-2.5E+10000000000000000000", "1e-9223372036854775809", "7E18446744073709551616", "0e9223372036854775809", "1e340282366920938463463374607431768211456"] {
+        for f in forms {
+            tr.emit(json!({"op": "de_json", "form": f, "doc": text_to_json(doc)}));
+        }
+    }
     for doc in ["null", "true", "[1]", "{}", "\"\"", "\"abc\"", "\"1e5\"", "\"-.5\"", "\".+5\"", "\"1_000\"", "1e", "-", "", "01", "1.", ".5", "+1", "--1", "1.0.0", "0x10", "1e5e5", "\"12.5\"", "-0", "-0.0e-0", "0e0", "1E+2", "NaN", "Infinity"] {
         for f in forms {
             tr.emit(json!({"op": "de_json", "form": f, "doc": text_to_json(doc)}));
